@@ -1,4 +1,7 @@
 import UmProofs.BrokerFailoverLimitView
+import UmProofs.BrokerSlotsPlanJ
+import UmProofs.BrokerEpochStep
+import UmProofs.BrokerResReach
 import UmProofs.BrokerFailoverAlloc
 /-!
 # C06 — Failover promotes the replica without changing slot ownership
@@ -510,20 +513,20 @@ theorem C06_limited {s : Store} {name p : String} {cl : Cluster} (hcl : s.findCl
 
 /-! ## lifted to every reachable state
 
-The theorems above hold for every store satisfying their explicit hypotheses. Here the hypotheses
-are discharged from the *lifted* invariants of the other broker properties (`PosInv`, `TwinInv`:
-C09/C10; `EpochInv`: C04; `ResInv`: C12), taken as premises so that they can be plugged in. -/
+`C06_failover_at` / `C06_epochs_at` collect the clauses for one store whose clusters satisfy the
+invariants; `C06_failover_run` / `C06_epochs_run` discharge those invariants with the theorems of
+C01 (`Plan.cinv_run`: `PosInv`, `TwinInv` on every bounded run), C04 (`Epoch.epochInv_reachable`) and
+C12 (`resInv_reachable`), so that nothing but the master bound `PlanBound` (≤ 16384 masters per
+cluster in every prefix of the history) remains as a premise. `C06_reachable_*` are the same with
+the lifted invariants as premises. -/
 
-/-- (a)+(b)+replacement for every reachable state: along every history `ops`, for every registered
-proxy `p` that is tagged with a cluster, the failover step `failover p choice` (any choice) has
-the effect described by `C06_failover` and `C06_a_per_range` on that cluster. -/
-theorem C06_reachable_failover
-    (hPos : ∀ s, Reachable s → ∀ c ∈ s.clusters, PosInv c) (hRes : ∀ s, Reachable s → ResInv s)
-    (ops : List Op) (p choice name : String) (pr : ProxyRes)
-    (hp : (run ops).findProxy p = some pr) (hc : pr.cluster = some name) :
-    ∃ cl k h, (run ops).findCluster name = some cl ∧ failedAt p cl.chunks = some (k, h) ∧
-      p ∈ (stepFull (run ops) (Op.failover p choice)).1.failed ∧
-      ∃ cl' v v', (stepFull (run ops) (Op.failover p choice)).1.findCluster name = some cl' ∧
+/-- clauses (a), (b), (c), (e) and the replacement clause for the step `failover p choice` at store `s`,
+`p` registered and tagged with cluster `name` -/
+def FailoverClauses (s : Store) (p choice name : String) : Prop :=
+    ∃ cl k h, s.findCluster name = some cl ∧ failedAt p cl.chunks = some (k, h) ∧
+      p ∈ (stepFull s (Op.failover p choice)).1.failed ∧
+      takeoverMaster (takeoverMaster s name p).1 name p = ((takeoverMaster s name p).1.bump, R.ok ()) ∧
+      ∃ cl' v v', (stepFull s (Op.failover p choice)).1.findCluster name = some cl' ∧
         clusterStoreToCluster cl = R.ok v ∧ clusterStoreToCluster cl' = R.ok v' ∧
         (∀ i j, i < cl.chunks.length → j < 4 →
           keysAt v' i j = (if i = k then (if j / 2 = h then [] else keysAt v i j ++ keysAt v i (peerIdx j))
@@ -531,11 +534,24 @@ theorem C06_reachable_failover
         (∀ i j, i < cl.chunks.length → j < 4 → ∀ key : Key,
           (key ∈ keysAt v i j → dest k h i j < 4 ∧ key ∈ keysAt v' i (dest k h i j)) ∧
           (key ∈ keysAt v' i j → ∃ j0, j0 < 4 ∧ dest k h i j0 = j ∧ key ∈ keysAt v i j0)) ∧
-        (∀ n ∈ v'.nodes, n.proxy = p → n.replica = true ∧ n.slots = []) := by
-  have hr := reachable_run ops
-  obtain ⟨cl, k, h, hcl, hnd, hf⟩ := resInv_failedAt (hRes _ hr) hp hc
+        (∀ n ∈ v'.nodes, n.proxy = p → n.replica = true ∧ n.slots = []) ∧
+        (v'.nodes.length = 4 * cl'.chunks.length ∧
+          ∀ i j, i < cl'.chunks.length → j < 4 →
+            ∃ n np, vnode v' i j = some n ∧ vnode v' i (peerIdx j) = some np ∧
+              n.peers = [(np.address, np.proxy)] ∧ np.peers = [(n.address, n.proxy)] ∧
+              np.replica = !n.replica ∧ (n.replica = true → n.slots = []))
+
+/-- (a)+(b)+(c)+(e)+replacement at one store: for every registered proxy `p` tagged with a
+cluster, the failover step `failover p choice` (any choice, any role position, healthy partner or
+not) has the effect described by `C06_failover`, `C06_a_per_range`, `C06_c_peers`, `C06_e_repeat`. -/
+theorem C06_failover_at {s : Store} (hPos : ∀ c ∈ s.clusters, PosInv c) (hRes : ResInv s)
+    (p choice name : String) (pr : ProxyRes)
+    (hp : s.findProxy p = some pr) (hc : pr.cluster = some name) :
+    FailoverClauses s p choice name := by
+  unfold FailoverClauses
+  obtain ⟨cl, k, h, hcl, hnd, hf⟩ := resInv_failedAt hRes hp hc
   obtain ⟨c, hk, hh, -⟩ := failedAt_some hf
-  have hpos := hPos _ hr cl (findCluster_some hcl).1
+  have hpos := hPos cl (findCluster_some hcl).1
   obtain ⟨hfailed, cl', v, v', h1, h2, h3, -, h5, h6⟩ :=
     C06_failover (choice := choice) hp hc hcl hpos hnd hf hk
   have heq : ∀ i j, i < cl.chunks.length → j < 4 →
@@ -545,41 +561,92 @@ theorem C06_reachable_failover
     obtain ⟨n, np, n', a1, a2, a3, a4, -⟩ := h5 i j hi hj
     simp only [keysAt, a1, a2, a3, Option.map_some, Option.getD_some]
     exact a4
-  refine ⟨cl, k, h, hcl, hf, hfailed, cl', v, v', h1, h2, h3, heq, ?_, h6⟩
-  intro i j hi hj key
-  exact per_range hh (fun j => keysAt v i j) (fun j => keysAt v' i j) (fun j' hj' => heq i j' hi hj') j hj key
+  obtain ⟨hlen, hpeers⟩ := C06_c_peers cl' v' h3
+  refine ⟨cl, k, h, hcl, hf, hfailed, takeoverMaster_repeat hcl hf, cl', v, v', h1, h2, h3, heq, ?_, h6, hlen, ?_⟩
+  · intro i j hi hj key
+    exact per_range hh (fun j => keysAt v i j) (fun j => keysAt v' i j) (fun j' hj' => heq i j' hi hj') j hj key
+  · intro i j hi hj
+    obtain ⟨-, hp'⟩ := hpeers i cl'.chunks[i] (List.getElem?_eq_getElem hi)
+    obtain ⟨n, np, a1, a2, -, -, -, -, -, -, a9, a10, -, a12, a13⟩ := hp' j hj
+    exact ⟨n, np, a1, a2, a9, a10, a12, a13⟩
 
-/-- (d) for every reachable state: along every history, a `takeover_master` for a registered,
-cluster-tagged proxy that is not a repeat call re-issues — with an epoch above every epoch served
-before — every migration whose served source or destination address it changes. -/
-theorem C06_reachable_epochs
-    (hPos : ∀ s, Reachable s → ∀ c ∈ s.clusters, PosInv c) (hTwin : ∀ s, Reachable s → ∀ c ∈ s.clusters, TwinInv c)
-    (hEpoch : ∀ s, Reachable s → EpochInv s) (hRes : ∀ s, Reachable s → ResInv s)
-    (ops : List Op) (p name : String) (pr : ProxyRes)
-    (hp : (run ops).findProxy p = some pr) (hc : pr.cluster = some name) :
-    ∃ cl k h c, (run ops).findCluster name = some cl ∧ failedAt p cl.chunks = some (k, h) ∧
+/-- clause (d) for `takeover_master` of `p` (registered, tagged with cluster `name`) at store `s` -/
+def EpochClauses (s : Store) (p name : String) : Prop :=
+    ∃ cl k h c, s.findCluster name = some cl ∧ failedAt p cl.chunks = some (k, h) ∧
       cl.chunks[k]? = some c ∧
       (c.role ≠ newRole h →
-        ∃ cl', (takeoverMaster (run ops) name p).1.findCluster name = some cl' ∧
-          cl'.migs = cl.migs.map (tkEntry (tfPos h c) ((run ops).globalEpoch + 1)) ∧
+        ∃ cl', (takeoverMaster s name p).1.findCluster name = some cl' ∧
+          cl'.migs = cl.migs.map (tkEntry (tfPos h c) (s.globalEpoch + 1)) ∧
           ∀ m ∈ cl.migs,
             let I := specInfo m cl.chunks
-            let I' := specInfo (tkEntry (tfPos h c) ((run ops).globalEpoch + 1) m) cl'.chunks
-            I.epoch < (run ops).globalEpoch + 1 ∧ cl.epoch < (run ops).globalEpoch + 1 ∧
+            let I' := specInfo (tkEntry (tfPos h c) (s.globalEpoch + 1) m) cl'.chunks
+            I.epoch < s.globalEpoch + 1 ∧ cl.epoch < s.globalEpoch + 1 ∧
             ((I'.srcProxy, I'.srcNode, I'.dstProxy, I'.dstNode) ≠ (I.srcProxy, I.srcNode, I.dstProxy, I.dstNode) →
-              I'.epoch = (run ops).globalEpoch + 1)) := by
-  have hr := reachable_run ops
-  obtain ⟨cl, k, h, hcl, -, hf⟩ := resInv_failedAt (hRes _ hr) hp hc
+              I'.epoch = s.globalEpoch + 1) ∧
+            (srcMoved k h c m → I'.epoch = s.globalEpoch + 1 ∧ I'.srcProxy = proxyAtD c (1 - h) ∧
+              I'.srcNode = nodeAtD c (peerIdx (ownerIdx c.role m.mm.srcPart))) ∧
+            (dstMoved k h c m → I'.epoch = s.globalEpoch + 1 ∧ I'.dstProxy = proxyAtD c (1 - h) ∧
+              I'.dstNode = nodeAtD c (peerIdx (ownerIdx c.role m.mm.dstPart))) ∧
+            (¬ srcMoved k h c m → I'.srcProxy = I.srcProxy ∧ I'.srcNode = I.srcNode) ∧
+            (¬ dstMoved k h c m → I'.dstProxy = I.dstProxy ∧ I'.dstNode = I.dstNode))
+
+/-- (d) at one store: a `takeover_master` for a registered, cluster-tagged proxy that is not a
+repeat call re-issues — with an epoch above every epoch served before — every migration whose
+served source or destination address it changes; moved ends name the partner proxy and the
+promoted node, other ends keep their addresses. -/
+theorem C06_epochs_at {s : Store} (hPos : ∀ c ∈ s.clusters, PosInv c) (hTwin : ∀ c ∈ s.clusters, TwinInv c)
+    (hEpoch : EpochInv s) (hRes : ResInv s) (p name : String) (pr : ProxyRes)
+    (hp : s.findProxy p = some pr) (hc : pr.cluster = some name) :
+    EpochClauses s p name := by
+  unfold EpochClauses
+  obtain ⟨cl, k, h, hcl, -, hf⟩ := resInv_failedAt hRes hp hc
   obtain ⟨c, hk, -⟩ := failedAt_some hf
   have hmem := (findCluster_some hcl).1
   refine ⟨cl, k, h, c, hcl, hf, hk, ?_⟩
   intro hnr
   obtain ⟨cl', a1, -, -, a4, -, amigs, -, a6⟩ :=
-    C06_d_migration_epochs (hEpoch _ hr) hcl (hPos _ hr cl hmem) (hTwin _ hr cl hmem) hf hk hnr
+    C06_d_migration_epochs hEpoch hcl (hPos cl hmem) (hTwin cl hmem) hf hk hnr
   refine ⟨cl', a1, amigs, ?_⟩
-  · intro m hm
-    obtain ⟨-, -, -, -, b5, -, b7, -⟩ := a6 m hm
-    exact ⟨Nat.lt_succ_of_le b5, Nat.lt_succ_of_le a4, b7⟩
+  intro m hm
+  obtain ⟨-, -, -, -, b5, -, b7, b8, b9, b10, b11⟩ := a6 m hm
+  exact ⟨Nat.lt_succ_of_le b5, Nat.lt_succ_of_le a4, b7, b8, b9, b10, b11⟩
+
+/-- `C06_failover_at` along every history, with the lifted invariants as premises -/
+theorem C06_reachable_failover
+    (hPos : ∀ s, Reachable s → ∀ c ∈ s.clusters, PosInv c) (hRes : ∀ s, Reachable s → ResInv s)
+    (ops : List Op) (p choice name : String) (pr : ProxyRes)
+    (hp : (run ops).findProxy p = some pr) (hc : pr.cluster = some name) :
+    FailoverClauses (run ops) p choice name :=
+  C06_failover_at (hPos _ (reachable_run ops)) (hRes _ (reachable_run ops)) p choice name pr hp hc
+
+/-- `C06_epochs_at` along every history, with the lifted invariants as premises -/
+theorem C06_reachable_epochs
+    (hPos : ∀ s, Reachable s → ∀ c ∈ s.clusters, PosInv c) (hTwin : ∀ s, Reachable s → ∀ c ∈ s.clusters, TwinInv c)
+    (hEpoch : ∀ s, Reachable s → EpochInv s) (hRes : ∀ s, Reachable s → ResInv s)
+    (ops : List Op) (p name : String) (pr : ProxyRes)
+    (hp : (run ops).findProxy p = some pr) (hc : pr.cluster = some name) :
+    EpochClauses (run ops) p name :=
+  C06_epochs_at (hPos _ (reachable_run ops)) (hTwin _ (reachable_run ops)) (hEpoch _ (reachable_run ops))
+    (hRes _ (reachable_run ops)) p name pr hp hc
+
+/-- **C06 (a), (b), (c), (e) for every bounded history, no further premise.** For every operation
+list `ops` all of whose prefixes keep every cluster at ≤ 16384 masters (`PlanBound`), and every
+registered proxy `p` tagged with a cluster: appending `failover p choice` (any choice; the chunk
+partner may be healthy or not) has the effects of `C06_failover_at`. -/
+theorem C06_failover_run (ops : List Op) (hb : ∀ k, Plan.PlanBound (run (ops.take k)))
+    (p choice name : String) (pr : ProxyRes)
+    (hp : (run ops).findProxy p = some pr) (hc : pr.cluster = some name) :
+    FailoverClauses (run ops) p choice name :=
+  C06_failover_at (fun c hc' => (Plan.cinv_run ops hb c hc').1) (resInv_reachable (reachable_run ops))
+    p choice name pr hp hc
+
+/-- **C06 (d) for every bounded history, no further premise.** -/
+theorem C06_epochs_run (ops : List Op) (hb : ∀ k, Plan.PlanBound (run (ops.take k)))
+    (p name : String) (pr : ProxyRes)
+    (hp : (run ops).findProxy p = some pr) (hc : pr.cluster = some name) :
+    EpochClauses (run ops) p name :=
+  C06_epochs_at (fun c hc' => (Plan.cinv_run ops hb c hc').1) (fun c hc' => (Plan.cinv_run ops hb c hc').2.1)
+    (Epoch.epochInv_reachable _ (reachable_run ops)) (resInv_reachable (reachable_run ops)) p name pr hp hc
 
 /-! ## non-vacuity: a reachable 2-chunk cluster in the middle of a migration
 
@@ -672,6 +739,25 @@ theorem ex_hyps : Reachable exS ∧ EpochInv exS ∧
             hk0, hk1, ?_, ?_, hlen, f4⟩
           · intro h; rw [h] at r0; revert r0; decide
           · intro h; rw [h] at r1; revert r1; decide
+
+/-- every prefix of the example history respects the master bound -/
+theorem ex_bound : ∀ k, Plan.PlanBound (run (exOps.take k)) := by
+  have hsmall : ∀ k, k < 9 → ∀ c ∈ (run (exOps.take k)).clusters, c.chunks.length * 2 ≤ SLOT_NUM := by
+    decide +kernel
+  intro k
+  by_cases hk : k < 9
+  · exact hsmall k hk
+  · have : exOps.take k = exOps.take 8 := by
+      rw [List.take_of_length_le (by simp [exOps]; omega), List.take_of_length_le (by simp [exOps])]
+    rw [this]; exact hsmall 8 (by omega)
+
+/-- `C06_failover_run` / `C06_epochs_run` on the example history: all clauses, no premise left -/
+example : FailoverClauses exS "a:1" "e:1" "k" ∧ FailoverClauses exS "d:1" "e:1" "k" ∧
+    EpochClauses exS "a:1" "k" ∧ EpochClauses exS "d:1" "k" := by
+  obtain ⟨-, -, cl, pa, pd, c0, c1, -, -, -, -, hpa, hca, hpd, hcd, -⟩ := ex_hyps
+  exact ⟨C06_failover_run exOps ex_bound "a:1" "e:1" "k" pa hpa hca,
+    C06_failover_run exOps ex_bound "d:1" "e:1" "k" pd hpd hcd,
+    C06_epochs_run exOps ex_bound "a:1" "k" pa hpa hca, C06_epochs_run exOps ex_bound "d:1" "k" pd hpd hcd⟩
 
 /-- (a), (b), (d), (e), `C06_failover` apply to `exS` (their hypotheses are satisfiable together) -/
 example : ∃ cl' v v', (takeoverMaster exS "k" "a:1").1.findCluster "k" = some cl' ∧
